@@ -3,6 +3,7 @@ package c11
 import (
 	"fmt"
 	"testing"
+	"time"
 
 	fpgo "github.com/TeaEntityLab/fpGo/v2"
 
@@ -112,4 +113,100 @@ func TestMonadicValues(t *testing.T) {
 		}
 	}
 	vlib.S().Exhaustive("monadic-values")
+}
+
+// Part "independent-values": every constructor call builds its own MonadIO, also for equal (or nil)
+// values: "with every combination of nil/non-nil observe and subscribe handlers" is a per-MonadIO choice,
+// so giving handlers to one Just(v) leaves another Just(v) without: its effect/OnNext run synchronously on
+// the evaluating goroutine, exactly once - also after the first one's handler has been closed.
+
+type indepCase struct {
+	Ctor   int  `json:"ctor"`   // as valCase.Ctor
+	Value  int  `json:"value"`  // 0 nil, 1 0, 2 "", 3 false, 4 one shared pointer
+	Config int  `json:"config"` // handlers given to the FIRST MonadIO: 1 SubscribeOn, 2 ObserveOn, 3 both
+	Closed bool `json:"closed"` // the first one's handler is closed before the second is used
+}
+
+func runIndepCase(c indepCase) (key, msg string) {
+	shared := new(int)
+	v := []interface{}{nil, 0, "", false, shared}[c.Value]
+	mk := func() *fpgo.MonadIODef[interface{}] {
+		switch c.Ctor {
+		case 0:
+			return fpgo.MonadIOJustGenerics[interface{}](v)
+		case 1:
+			return fpgo.MonadIO.Just(v)
+		}
+		return fpgo.MonadIONewGenerics(func() interface{} { return v })
+	}
+	h := fpgo.Handler.New()
+	closed := false
+	defer func() {
+		if !closed {
+			h.Close()
+		}
+	}()
+	first := mk()
+	if c.Config&1 != 0 {
+		first.SubscribeOn(h)
+	}
+	if c.Config&2 != 0 {
+		first.ObserveOn(h)
+	}
+	second := mk()
+	if c.Closed {
+		h.Close()
+		closed = true
+	}
+	me := vlib.GoID()
+	n := 0
+	var got interface{}
+	var onG uint64
+	done := make(chan struct{})
+	go func() {
+		defer close(done)
+		me = vlib.GoID()
+		p, _ := vlib.Try(func() {
+			second.Subscribe(fpgo.Subscription[interface{}]{OnNext: func(x interface{}) { n++; got = x; onG = vlib.GoID() }})
+		})
+		if p != nil {
+			key, msg = "C11/independent-values/panic", fmt.Sprint(p)
+		}
+	}()
+	select {
+	case <-done:
+	case <-time.After(vlib.StallBudget()):
+		return "C11/independent-values/stall", "Subscribe on a MonadIO without handlers did not return (another MonadIO of the same value has handlers)"
+	}
+	if key != "" {
+		return
+	}
+	if n != 1 || got != v {
+		return "C11/independent-values/delivery", fmt.Sprintf("a MonadIO without handlers delivered %d times on return of Subscribe (value %v, want once %v)", n, got, v)
+	}
+	if onG != me {
+		return "C11/independent-values/goroutine", "a MonadIO without handlers delivered on another goroutine than the subscribing one (handlers were given only to ANOTHER MonadIO of the same value)"
+	}
+	return "", ""
+}
+
+func TestIndependentValues(t *testing.T) {
+	if vlib.Replaying() {
+		t.Skip()
+	}
+	for ctor := 0; ctor < 3; ctor++ {
+		for value := 0; value < 5; value++ {
+			for config := 1; config <= 3; config++ {
+				for _, cl := range []bool{false, true} {
+					c := indepCase{ctor, value, config, cl}
+					vlib.S().Eval("independent-values")
+					vlib.S().NonTrivial("independent-values", fmt.Sprintf("%+v", c))
+					if key, msg := runIndepCase(c); key != "" {
+						vlib.Fail(t, key, "%+v: %s", c, msg)
+					}
+				}
+			}
+		}
+	}
+	vlib.S().Exhaustive("independent-values")
 }
